@@ -78,7 +78,52 @@ render_mc3 = Contract(
               "result == ident + ('' if rounds is None else str(rounds)) + '$' + salt + ('$' + checksum if (checksum is not None and len(checksum) > 0) else '')")],
 )
 
-CONTRACTS = [parse_mc3_hash, parse_mc3_config, parse_mc3_zero, parse_mc2_hash, parse_mc2_config, render_mc2, render_mc3]
+PHC = "libpass/inspect/phc/_phc.py"
+
+
+def _phc_setup(n):
+    def setup(it, args):
+        from pyvc.contract import Opt as _Opt
+        defs = []
+        for i in range(n):
+            d = SObj(f"definition{i}", is_class=True, fields={"version": _Opt(Int()).make(it, f"def{i}.version"), "index": i})
+            defs.append(d)
+        matches = [SBool(z3.Bool(f"id_in_def{i}")) for i in range(n)]
+
+        class _Ids:
+            pass
+
+        def parse_def(it2, a, k):
+            i = a[0].fields["index"]
+            ids = SObj(f"ids{i}", fields={"__contains__": SStub(lambda i3, aa, kk, _m=matches[i]: _m, "id in definition.id")})
+            return SObj(f"info{i}", fields={"id": ids})
+
+        args["definitions"] = tuple(defs)
+        it.run.ghost["defs"] = defs
+        out = {f"definition{i}": d for i, d in enumerate(defs)}
+        out.update({f"id_in_def{i}": m for i, m in enumerate(matches)})
+        out["_parse_phc_def_stub"] = SStub(parse_def, "_parse_phc_def")
+        it.genv.vars["_parse_phc_def"] = out["_parse_phc_def_stub"]
+        return out
+
+    return setup
+
+
+def _phc_contract(n):
+    chosen = [f"implies(result is definition{i}, id_in_def{i} and ((definition{i}.version is None and version is None) or (definition{i}.version is not None and version is not None and definition{i}.version == version)))" for i in range(n)]
+    none = " and ".join(f"not (id_in_def{i} and ((definition{i}.version is None and version is None) or (definition{i}.version is not None and version is not None and definition{i}.version == version)))" for i in range(n))
+    return Contract(
+        f"phc._choose_definition[{n} definitions]", f"{PHC}::_choose_definition",
+        params={"definitions": Const(None), "id": Str(), "version": Opt(Int())},
+        setup=_phc_setup(n),
+        globals={"Sequence": __import__("pyvc.values", fromlist=["SType"]).SType("tuple")},
+        ensures=[(f"a definition is chosen only if its id matches and its version equals the record's version exactly (a version-less record never selects a versioned definition) [{i}]", c) for i, c in enumerate(chosen)]
+        + [("None only when no definition matches id and version", f"implies(result is None, {none})")],
+        descr="definitions with arbitrary (optional) versions, record version None or int",
+    )
+
+
+CONTRACTS = [_phc_contract(1), _phc_contract(2), parse_mc3_hash, parse_mc3_config, parse_mc3_zero, parse_mc2_hash, parse_mc2_config, render_mc2, render_mc3]
 
 
 def _mc_roundtrip():
@@ -98,6 +143,7 @@ LEMMAS = [Lemma("mc3-roundtrip", _mc_roundtrip, "render_mc3 output satisfies par
 BOUNDED = [Bounded("c07", "harness/c07.py", descr="parse/render round trips of every hasher; libpass inspect/PHC", timeout=900)]
 
 MUTANTS = [
+    ("phc: a version-less record selects a versioned definition", PHC, "        if id_matches and definition.version == version:", "        if id_matches and version in (None, definition.version):", "refute", "phc"),
     ("parse_mc3 returns the fields swapped", H, "    return rounds, salt, chk or None\n", "    return rounds, chk or None, salt\n", "refute"),
     ("parse_mc3 accepts zero padded rounds", H, "    if rounds.startswith(_UZERO) and rounds != _UZERO:\n        raise exc.ZeroPaddedRoundsError(handler)\n    if rounds:\n        rounds = int(rounds, rounds_base)", "    if rounds:\n        rounds = int(rounds, rounds_base)", "refute"),
     ("render_mc3 forgets the separator before the checksum", H, "        parts = [ident, rounds, sep, salt, sep, checksum]\n", "        parts = [ident, rounds, sep, salt, checksum]\n", "refute"),
